@@ -139,6 +139,11 @@ def run_one_case(acc, c):
                         if i is not None and p.nodes[i].setup and i not in pre:
                             pre[i] = ser
                 stats[k] = stats.get(k, 0) + 1
+                if not has_setup and c["var"] == "plain" and any(s_ is not None and len(s_) >= 2 for s_ in (Ri, Xi, Ti)):
+                    # the same selection with every alias list written in the opposite order (descendants before ancestors)
+                    R2, X2, T2 = (list(reversed(x_)) if x_ is not None else None for x_ in (R, X, T))
+                    k2 = evaluate(acc, c, d, ns, p, R2, X2, T2, pre=pre)
+                    stats[k2] = stats.get(k2, 0) + 1
                 if k in ("run", "valueerror") and (Ri is not None) + (Xi is not None) + (Ti is not None) >= 2:
                     acc.mark_nontrivial((repr(c), repr((Ri, Xi, Ti))))
     for k, v in stats.items():
